@@ -583,6 +583,27 @@ theorem deciders_without_setters (c : Config) (s : State) (ops : List (Op × Nat
   · rw [runC_ops]
     simp [noErrCB, noErrB, List.all_map, Function.comp_def, Event.lift]
 
+/-! ### The bar hypotheses on the configuration in force at every call
+
+`hyps_decide` speaks about the configuration a run STARTS with.  In a history with `set_bar_width` and the
+character setters in the middle, `bar_width_current_config` needs `SingleChars` and the width bound for the
+configuration in force at the call that draws; `barHypB` (Model/Progress.lean) decides them per event, the driver
+answers it for every call (`bar_hyp` of each event of `c16.run`) and the harness compares it with the same
+conditions read off the REAL bar just before that call. -/
+
+/-- what the per-event answer `bar_hyp` of the driver means -/
+theorem bar_hyp_decides (e : CEvent) :
+    barHypB e = true ↔ (SingleChars e.cfg ∧ e.cfg.barWidth < 2 ^ 52) := by
+  simp only [barHypB, Bool.and_eq_true, singleCharsB_iff, barWidthOkB_iff]
+
+/-- `bar_width_current_config` from the decider -/
+theorem bar_width_current_config_dec (c : Config) (m : Int) (t0 : Nat) (calls : List (Call × Nat)) :
+    ∀ e ∈ runC c (init m t0) calls, barHypB e = true →
+      ∀ f b, e.res.frame = some f → f.bar = some b → b.length = e.cfg.barWidth := by
+  intro e he h
+  obtain ⟨hc, hw⟩ := (bar_hyp_decides e).mp h
+  exact bar_width_current_config c m t0 calls e he hc hw
+
 /-- Non-vacuity (the shape of the round-8 seeded change): maximum 50, interval 1/8 s; a frame at
 t = 64000, then `min_seconds_between_redraws(2 s)`; the advance to step 5 half a second later
 crosses a step period but is throttled by the NEW interval; the one 2 s later draws. -/
@@ -684,5 +705,71 @@ example :
 example : (overwriteWith false (mkConfig .ansi false 0 120 0 none none (some 5) none none none none)
       { (init 3 0) with formatLineCount := 0, displayedLineCount := some 1 } 0 "1/3 done".toList).2 =
       [['\r'], "1/3 done".toList] := by decide +kernel
+
+/-! ## Non-vacuity of the theorems about setters and `set_format` (hypothesis audit, rounds 8-9) -/
+
+private def cS : Config := mkConfig .ansi false 0 120 8 none none (some 10) none none none none
+private def callsS : List (Call × Nat) :=
+  [(.op (.start none), 64000), (.set (.minInterval 128), 64001), (.op (.advance 5), 64032),
+   (.op (.advance 5), 64128)]
+
+example : ∃ e1 e2 e3 e4, runC cS (init 50 64000) callsS = [] ++ e1 :: ([e2, e3] ++ e4 :: []) ∧
+    (e4.t : Int) - (e1.t : Int) ≥ (e4.cfg.minInterval : Int) ∧ e4.cfg.minInterval = 128 ∧
+    e1.cfg.minInterval = 8 := by
+  refine ⟨_, _, _, _, rfl, ?_, by decide +kernel, by decide +kernel⟩
+  have hsome : ((runC cS (init 50 64000) callsS)[3]!).res.frame.isSome = true := by decide +kernel
+  obtain ⟨f, hf⟩ := Option.isSome_iff_exists.mp hsome
+  exact throttle_spacing_current_config cS (by decide) (init 50 64000) callsS [] _ [_, _] _ [] rfl
+    (by decide +kernel) (by decide +kernel) (.advance 5) rfl (by decide) f hf (by decide +kernel)
+
+example : ((mkConfig .ansi false 0 120 8 none none (some 10) none none none none).set (.minInterval 128)).minInterval = 128 :=
+  min_interval_setter _ 128 (by decide)
+
+/-- a history with `set_bar_width(7)` and `set_bar_character("#")` in the middle, maximum 3 -/
+private def callsW : List (Call × Nat) :=
+  [(.op (.start none), 64000), (.set (.barWidth 7), 64001), (.set (.barChar ['#']), 64002),
+   (.op (.advance 1), 64100), (.set (.progressChar ['>', '>']), 64101), (.op (.advance 2), 64200)]
+
+/-- the decider is evaluated per call: true up to the call that makes the progress character two characters
+wide, false for the calls after it -/
+example : (runC cS (init 3 64000) callsW).map barHypB = [true, true, true, true, true, false] := by
+  decide +kernel
+
+/-- `bar_width_current_config_dec` applied: the frame of the `advance` after the two setters has a bar of the
+NEW width 7 (the one of `start` had 10) -/
+example : ∀ f b, ((runC cS (init 3 64000) callsW)[3]'(by decide +kernel)).res.frame = some f → f.bar = some b →
+    b.length = 7 :=
+  bar_width_current_config_dec cS 3 64000 callsW _ (List.getElem_mem _) (by decide +kernel)
+
+example : (((runC cS (init 3 64000) callsW)[3]!).res.frame.bind (·.bar)) = some "##>----".toList ∧
+    (((runC cS (init 3 64000) callsW)[0]!).res.frame.bind (·.bar)) = some ">---------".toList := by decide +kernel
+
+/-- `max_always_draws_current_config`: the last call reaches the maximum 1/64 s after a setter - it draws -/
+example : ((runC cS (init 3 64000) callsW)[5]'(by decide +kernel)).res.frame.isSome ∨
+    ((runC cS (init 3 64000) callsW)[5]'(by decide +kernel)).res.err.isSome :=
+  max_always_draws_current_config cS (by decide) (init 3 64000) callsW _ (List.getElem_mem _) (.advance 2) rfl
+    (by decide) (by decide +kernel)
+
+/-- `quiet_nothing_current_config`: the same history on a quiet output -/
+example : ∀ e ∈ runC { cS with quiet := true } (init 3 64000) callsW, e.res.writes = [] :=
+  quiet_nothing_current_config _ rfl _ _
+
+/-- `throttle_current_config` applied to the drawn `advance` of the history with the new interval -/
+example := throttle_current_config cS (init 50 64000) callsS
+  ((runC cS (init 50 64000) callsS)[3]'(by decide +kernel)) (List.getElem_mem _) (.advance 5) rfl (by decide)
+
+/-- `set_format_no_residue`, every hypothesis discharged: a two-line frame stands (`0/3` above the cursor row
+`[>----]`) under a line of the application, the format in use now has one line -/
+example :
+    (Scr.redraw ⟨["0/3".toList] ++ ["app output".toList], "[>----]".toList, 7, []⟩ 1 true
+      ((splitNL "1/3 done".toList).map (ljust 0))).rows = ["app output".toList, "1/3 done".toList] :=
+  (set_format_no_residue (mkConfig .ansi false 0 120 0 none none (some 5) none none none none) rfl rfl
+    { (init 3 0) with formatLineCount := 0, displayedLineCount := some 1 } 0 "1/3 done".toList 1 rfl (by decide)
+    ["0/3".toList] ["app output".toList] "[>----]".toList 7 [] rfl).2.1
+
+/-- `set_format_section_clears_standing_frame`, hypotheses discharged (a section output, a two-line frame stands) -/
+example := set_format_section_clears_standing_frame
+  (mkConfig .section false 0 120 0 none none (some 5) none none none none) rfl
+  { (init 3 0) with formatLineCount := 0, displayedLineCount := some 1 } 0 "1/3 done".toList 1 rfl
 
 end Clikit.Props.C16
